@@ -7,6 +7,7 @@ import (
 	"go/ast"
 	"go/token"
 	"go/types"
+	"regexp"
 	"sort"
 	"strings"
 
@@ -728,7 +729,7 @@ func (fx *FuncExec) lockTarget(mu Val) (key string, obj string, owner types.Type
 
 func (fx *FuncExec) execLock(st *State, mu Val, pos token.Pos) {
 	key, obj, owner, ts := fx.lockTarget(mu)
-	fx.lockOrd++
+	fx.lockOrd = fx.staticOrd("Lock")
 	if key == "" {
 		fx.note("a lock that is not a struct field was ignored")
 		return
@@ -761,6 +762,16 @@ func (fx *FuncExec) execLock(st *State, mu Val, pos token.Pos) {
 			}
 			nv := fx.freshVal(ft, "lock:"+g, st)
 			fx.refFacts(st, nv)
+			if nv.Sort == SSlice {
+				// A5: a slice held in a guarded field does not share its backing array with the
+				// slices this function was given (representation exposure is not checked)
+				for _, p := range fx.fn.Params {
+					if pv, ok := fx.vals[p]; ok && pv.Sort == SSlice {
+						fx.assume(st, or(eq("(s.arr "+nv.S+")", "0"), not(eq("(s.arr "+nv.S+")", "(s.arr "+pv.S+")"))))
+					}
+				}
+				fx.note("A5: guarded slice fields do not alias the function's slice parameters")
+			}
 			fx.Store(st, &Loc{Kind: LField, Ref: obj, Owner: owner, OwnerS: sty, Field: fi, T: ft}, nv)
 		}
 		// ghost fields are part of the protected state
@@ -781,7 +792,13 @@ func (fx *FuncExec) execLock(st *State, mu Val, pos token.Pos) {
 		for _, inv := range ts.Invariants {
 			fx.assume(st, fx.evalBool(env, inv))
 		}
-		if last, ok := st.lastSeen[key]; ok {
+		last, ok := st.lastSeen[key]
+		if !ok && !fx.freshRefs[obj] {
+			// rely: whatever other goroutines did since this function was entered obeys the
+			// guarantee (its reflexive-transitive closure), so the entry state is a valid baseline
+			last, ok = fx.entry, true
+		}
+		if ok {
 			envG := &SpecEnv{fx: fx, cur: st, old: last, bind: map[string]Val{"self": self}, calleeMode: true, pkgOf: owner}
 			for _, g := range ts.Guarantees {
 				fx.assume(st, fx.evalBool(envG, g))
@@ -833,7 +850,7 @@ func fieldIndex(s *types.Struct, name string) int {
 
 func (fx *FuncExec) execUnlock(st *State, mu Val, pos token.Pos) {
 	key, obj, owner, ts := fx.lockTarget(mu)
-	fx.unlockOrd++
+	fx.unlockOrd = fx.staticOrd("Unlock")
 	if key == "" {
 		return
 	}
@@ -906,9 +923,78 @@ func (fx *FuncExec) checkGuard(st *State, addr Val, pos token.Pos, rw string) {
 		// `requires held(x.mutex)` is recorded as an initially held lock
 	}
 	fx.oblige("guard", st, held, fmt.Sprintf("%s of guarded field %s.%s without holding %s", rw, ts.Name, fname, ts.GuardedBy), pos)
+	if rw == "read" && held != "true" && l.T != nil {
+		// an unlocked read may observe whatever other goroutines could have left there: any value
+		// the guarantee allows relative to the state this function was entered in
+		if _, isMap := l.T.Underlying().(*types.Map); !isMap && fx.em.SortOf(l.T) != "" {
+			cur := fx.Load(st, l)
+			nv := fx.freshVal(l.T, "racy:"+fname, st)
+			fx.refFacts(st, nv)
+			nv.S = fx.em.Define("racy", nv.Sort, ite(held, cur.S, nv.S))
+			fx.Store(st, l, nv)
+			self := Val{T: types.NewPointer(l.Owner), Sort: SInt, S: l.Ref}
+			envG := &SpecEnv{fx: fx, cur: st, old: fx.entry, bind: map[string]Val{"self": self}, calleeMode: true, pkgOf: l.Owner}
+			for _, g := range ts.Guarantees {
+				// only guarantees that speak about this one field (a racy read of one field says
+				// nothing consistent about the others)
+				onlyThis := true
+				for _, m := range reSelfField.FindAllStringSubmatch(g.Text, -1) {
+					if m[1] != fname {
+						onlyThis = false
+					}
+				}
+				if !onlyThis {
+					continue
+				}
+				fx.assume(st, fx.evalBool(envG, g))
+			}
+		}
+	}
 }
 
 func (fx *FuncExec) checkGuardMap(st *State, m ssa.Value, pos token.Pos) {
 	// the map value was loaded from a guarded field: the load itself was checked; updates through it
 	// are checked at the load of the field.
 }
+
+// staticOrd numbers the Lock (resp. Unlock) calls of the function in source order, so that
+// `old@lockN` and `ghost at unlock N` do not depend on the order blocks are executed in.
+func (fx *FuncExec) staticOrd(kind string) int {
+	if fx.lockOrds == nil {
+		fx.lockOrds = map[ssa.Instruction]int{}
+		type rec struct {
+			in  ssa.Instruction
+			pos token.Pos
+		}
+		var locks, unlocks []rec
+		for _, b := range fx.fn.Blocks {
+			for _, in := range b.Instrs {
+				ci, ok := in.(ssa.CallInstruction)
+				if !ok {
+					continue
+				}
+				f, ok := ci.Common().Value.(*ssa.Function)
+				if !ok {
+					continue
+				}
+				switch f.String() {
+				case "(*sync.Mutex).Lock", "(*sync.RWMutex).Lock", "(*sync.RWMutex).RLock":
+					locks = append(locks, rec{in, in.Pos()})
+				case "(*sync.Mutex).Unlock", "(*sync.RWMutex).Unlock", "(*sync.RWMutex).RUnlock":
+					unlocks = append(unlocks, rec{in, in.Pos()})
+				}
+			}
+		}
+		sort.SliceStable(locks, func(i, j int) bool { return locks[i].pos < locks[j].pos })
+		sort.SliceStable(unlocks, func(i, j int) bool { return unlocks[i].pos < unlocks[j].pos })
+		for i, r := range locks {
+			fx.lockOrds[r.in] = i + 1
+		}
+		for i, r := range unlocks {
+			fx.lockOrds[r.in] = i + 1
+		}
+	}
+	return fx.lockOrds[fx.curInstr]
+}
+
+var reSelfField = regexp.MustCompile(`self\.(\$?[A-Za-z_][A-Za-z0-9_]*)`)
